@@ -22,6 +22,7 @@ EXPLANATION = (
     "one separator, i.e. a cell is added to a row only if separator + cell still fit."
     ' Added after seed round 3: (5) AXIS - placement options reach parameters of their own axis (align/width/left/right vs valign/height/top/bottom) and no argument carries the name of a different parameter; (6) ACCUM - Columns.column_widths charges / refunds its budget for every column it passes.'
     ' Round 4: (7) the space a relative size is a percentage of is clamped to >= 0 before scaling, in both placement helpers; (8) memo vs child queries (C06.7); (9) Overlay measures a flow top widget at the width top_w_size() renders it with (roles matched through the caller). Round 5: (2, extended) the share stored into the result is the share taken off the remainder; (10) no size expression counts one margin of a pair twice and its partner not at all.'
+    ' Round 6: (11) an override of the bottom margin in Overlay.calculate_padding_filler keeps top + height + bottom == maxrow or is made exactly under height > maxrow; (12) Columns.column_widths reserves, credits back and floors weighted columns with one and the same amount.'
 )
 NOT_DECIDED = "Non-negativity of every child dimension, proportionality within one column, focus-column visibility, min-width interaction beyond the ordering clause, alignment rounding - integer-rounding properties over ranges."
 ASSUMPTIONS = []
@@ -369,6 +370,99 @@ def _memo_children(ctx: Ctx):
     return r
 
 
+def rule_margin_override(ctx: Ctx) -> RuleResult:
+    """'margins plus child exactly fill the available space': after Overlay.calculate_padding_filler() asked the
+    filler helper for (top, bottom) it overrides `bottom` in two places so that a child larger than its slot hangs
+    out at the bottom.  Either the override keeps the identity top + height + bottom == maxrow by construction
+    (`bottom = maxrow - top - height`), or - where it is written without `top` (`bottom = maxrow - height`) - it is
+    made exactly under `height > maxrow`: only a child taller than the *whole* area makes the helper clip top to 0.
+    A weaker guard (height > maxrow - self.top - self.bottom) overrides while top is still positive: top + child +
+    bottom exceed maxrow and mouse_event() rejects clicks on the last rows of the top widget."""
+    from ..rules.exc import ExcEngine
+    from ..rules.runpos import _atoms
+    from ..rules.util import lin_str, linear
+
+    p = ctx.p
+    rr = RuleResult("PAIR", "C19.11", "an override of the bottom margin in Overlay.calculate_padding_filler keeps top + height + bottom == maxrow, or is made exactly under height > maxrow", floor=2)
+    fi = p.func("urwid.widget.overlay.Overlay.calculate_padding_filler")
+    cfg = cfg_of(fi)
+    size_un = next((n.targets[0] for n in fi.own_nodes() if isinstance(n, ast.Assign) and isinstance(n.value, ast.Name) and n.value.id in fi.params and isinstance(n.targets[0], ast.Tuple) and len(n.targets[0].elts) == 2), None)
+    if size_un is None:
+        raise AnalysisError("calculate_padding_filler: the unpacking of size was not found")
+    maxrow = size_un.elts[1].id
+    # the (top, bottom) pair: targets of the calculate_top_bottom_filler() calls
+    pairs = {(n.targets[0].elts[0].id, n.targets[0].elts[1].id) for n in fi.own_nodes() if isinstance(n, ast.Assign) and isinstance(n.value, ast.Call) and callee_name(n.value) == "calculate_top_bottom_filler" and isinstance(n.targets[0], ast.Tuple) and len(n.targets[0].elts) == 2 and all(isinstance(e, ast.Name) for e in n.targets[0].elts)}
+    if len(pairs) != 1:
+        raise AnalysisError(f"calculate_padding_filler: expected one (top, bottom) pair, found {pairs}")
+    top, bottom = next(iter(pairs))
+    for n in cfg.nodes:
+        a = n.ast
+        if not (isinstance(a, ast.Assign) and len(a.targets) == 1 and isinstance(a.targets[0], ast.Name) and a.targets[0].id == bottom and not isinstance(a.value, ast.Call)):
+            continue
+        e = linear(a.value)
+        if e is None:
+            continue
+        # height: the remaining atom
+        hs = [k for k in e if k and k not in (maxrow, top)]
+        if len(hs) != 1:
+            continue
+        height = hs[0]
+        ident_ok = e == {maxrow: 1, top: -1, height: -1}
+        facts = []
+        for t in cfg.nodes:
+            if t.kind == "test" and n not in ExcEngine._reach_without_edge(cfg, t, "T"):
+                facts += _atoms(t.ast, True)
+        exact = any((ex == {height: 1, maxrow: -1} and o == ">") or (ex == {height: -1, maxrow: 1} and o == "<") for ex, o in facts)
+        rr.inst(norm(a, 50), True, {"override": norm(a, 60), "keeps_the_fill_identity": ident_ok, "guards": [f"{lin_str(ex)} {o} 0" for ex, o in facts][:5], "under_height_gt_maxrow": exact})
+        if not (ident_ok or (e == {maxrow: 1, height: -1} and exact)):
+            rr.add(finding("PAIR", fi, a, f"`{norm(a, 50)}` overrides the bottom margin without `{top}` in it and not exactly under `{height} > {maxrow}` (known: {', '.join(f'{lin_str(ex)} {o} 0' for ex, o in facts) or 'nothing'}): while {top} is still positive, {top} + child + {bottom} exceed {maxrow} - the reported margins overlap and mouse_event() rejects clicks on the last rows of the top widget", construct=f"bottom override without the fill identity: {norm(a, 40)}"))
+    return rr
+
+
+def rule_reserve_credit(ctx: Ctx) -> RuleResult:
+    """Columns.column_widths() works in two passes.  Pass 1 *reserves* a minimum for every weighted column (the value
+    charged to `shared` on the branch that is neither GIVEN nor PACK); the sharing pass gives these reservations back
+    in one sum (`grow = shared + len(weighted) * <credit>`) and then hands every weighted column at least
+    `max(.., <floor>)`.  The three amounts are one quantity: what is credited back per column is exactly what was
+    reserved per column, and the floor a column gets is what was reserved for it.  A reservation that differs for
+    some columns (0 for zero-weighted ones) while credit and floor stay at min_width hands out columns that were
+    never charged: the widths exceed the available space."""
+    p = ctx.p
+    rr = RuleResult("SIB", "C19.12", "Columns.column_widths: the per-column reservation of weighted columns, the per-column credit of the sharing pass and the floor of a share are the same expression", floor=3)
+    fi = p.func("urwid.widget.columns.Columns.column_widths")
+    # the charge variable: `shared -= X + ...` in the first loop
+    charges = [n for n in fi.own_nodes() if isinstance(n, ast.AugAssign) and isinstance(n.op, ast.Sub) and isinstance(n.target, ast.Name) and isinstance(n.value, ast.BinOp) and isinstance(n.value.left, ast.Name)]
+    if not charges:
+        raise AnalysisError("column_widths: the statement charging a column to the shared space was not found")
+    shared, unit = charges[0].target.id, charges[0].value.left.id
+    # reservation on the weighted branch: the assignment to `unit` in the final else of the kind chain
+    res = []
+    for n in fi.own_nodes():
+        if isinstance(n, ast.If) and n.orelse and not (len(n.orelse) == 1 and isinstance(n.orelse[0], ast.If)) and any(isinstance(c, ast.Attribute) and c.attr in ("GIVEN", "PACK") for c in ast.walk(n.test)):
+            for st in n.orelse:
+                if isinstance(st, ast.Assign) and isinstance(st.targets[0], ast.Name) and st.targets[0].id == unit:
+                    res.append(st.value)
+    credit = [n.value.right.right for n in fi.own_nodes() if isinstance(n, ast.Assign) and isinstance(n.value, ast.BinOp) and isinstance(n.value.op, ast.Add) and isinstance(n.value.left, ast.Name) and n.value.left.id == shared and isinstance(n.value.right, ast.BinOp) and isinstance(n.value.right.op, ast.Mult) and isinstance(n.value.right.left, ast.Call) and callee_name(n.value.right.left) == "len"]
+    floors = [c.args[1] for n in fi.own_nodes() if isinstance(n, ast.Assign) for c in [n.value] if isinstance(c, ast.Call) and callee_name(c) == "max" and len(c.args) == 2 and any(isinstance(x, ast.Call) and callee_name(x) == "int" for x in ast.walk(c.args[0]))]
+    if not (res or credit or floors):
+        raise AnalysisError("column_widths: neither reservation, credit nor floor of the weighted columns was found")
+    if not (res and credit and floors):
+        # one of the three is written in another form: the ORDER / PASS clauses (C19.2, C19.2b) own that statement;
+        # nothing to compare here
+        rr.notes.append(f"column_widths: reservation / credit / floor found {len(res)}/{len(credit)}/{len(floors)} - not compared")
+        for k in range(3):
+            rr.inst(f"not compared {k}", False)
+        return rr
+    texts = {"reservation": [ast.unparse(x) for x in res], "credit": [ast.unparse(x) for x in credit], "floor": [ast.unparse(x) for x in floors]}
+    allv = {t for v in texts.values() for t in v}
+    for k, v in texts.items():
+        rr.inst(f"{k}: {', '.join(v)}", True, {k: v})
+    if len(allv) != 1:
+        node = next(x for x in [*res, *credit, *floors] if ast.unparse(x) != ast.unparse(credit[0])) if len({*texts['credit']}) == 1 else credit[0]
+        rr.add(finding("SIB", fi, node, f"column_widths reserves {texts['reservation']} per weighted column, credits {texts['credit']} per column back before sharing and gives every share at least {texts['floor']}: these must be one amount - columns whose reservation is smaller than the credit / floor receive space that was never charged, the widths add up to more than the available columns (WidgetError: canvas too wide), and with exactly 0 spare columns a focused zero-weight column is hidden although it fits", construct="reservation, credit and floor of weighted columns differ"))
+    return rr
+
+
 def run(ctx: Ctx):
     p = ctx.p
     return [
@@ -384,6 +478,8 @@ def run(ctx: Ctx):
         _memo_children(ctx),
         rule_overlay_measure(ctx),
         rule_margin_pairs(ctx),
+        rule_margin_override(ctx),
+        rule_reserve_credit(ctx),
     ]
 
 
@@ -393,6 +489,10 @@ _PD = "urwid/widget/padding.py"
 _FL = "urwid/widget/filler.py"
 _G = "urwid/widget/grid_flow.py"
 MUTANTS = [
+    Mut("columns-zero-weight-reserves-nothing", "urwid/widget/columns.py", "Columns.column_widths", "                static_w = self.min_width\n", "                static_w = self.min_width if width else 0\n", "SIB|widget.columns.Columns.column_widths|reservation, credit and floor of weighted columns differ"),
+    Mut("columns-share-floor-one", "urwid/widget/columns.py", "Columns.column_widths", "width = max(int(grow * weight / wtotal + 0.5), self.min_width)", "width = max(int(grow * weight / wtotal + 0.5), 1)", "SIB|widget.columns.Columns.column_widths|reservation, credit and floor of weighted columns differ"),
+    Mut("overlay-flow-override-guard-with-margins", "urwid/widget/overlay.py", "Overlay.calculate_padding_filler", "            if height > maxrow:  # flow widget rendered too large", "            if height > maxrow - self.top - self.bottom:  # flow widget rendered too large", "PAIR|widget.overlay.Overlay.calculate_padding_filler|bottom override without the fill identity"),
+    Mut("twin-overlay-flow-override-with-top", "urwid/widget/overlay.py", "Overlay.calculate_padding_filler", "            if height > maxrow:  # flow widget rendered too large\n                bottom = maxrow - height", "            if height > maxrow - top - bottom:  # flow widget rendered too large\n                bottom = maxrow - top - height", twin=True),
     Mut("padding-pack-left-margin-twice", _PD, "Padding.padding_values", "maxwidth = max(maxcol - self.left - self.right, self.min_width or 0)", "maxwidth = max(maxcol - self.left - self.left, self.min_width or 0)", "PAIR|widget.padding.Padding.padding_values"),
     Mut("columns-clamp-after-subtraction", _C, "Columns.column_widths", "                width = max(int(grow * weight / wtotal + 0.5), self.min_width)\n\n                widths[i] = width\n", "                width = int(grow * weight / wtotal + 0.5)\n\n                widths[i] = max(width, self.min_width)\n", "ORDER|widget.columns.Columns.column_widths|handed out"),
     Mut("overlay-flow-rows-at-full-width", "urwid/widget/overlay.py", "Overlay.calculate_padding_filler", "self.top_w.rows((maxcol - left - right,), focus=focus)", "self.top_w.rows((maxcol,), focus=focus)", "SIB|widget.overlay.Overlay.calculate_padding_filler"),
